@@ -39,7 +39,7 @@ use rpki::rtr::state::{Serial, State};
 use rpki_verif::{guard, hex, Ctx};
 
 #[path = "../shared/rtr_sched.rs"] mod rtr_sched;
-use rtr_sched::{play, quiesce, render_script, sock_pair, Ev, Mark, Sched};
+use rtr_sched::{parse_script, play, quiesce, render_script, sock_pair, Ev, Mark, Sched};
 
 
 //------------ the data the server serves ------------------------------------
@@ -325,18 +325,20 @@ struct Parsed {
     notifies: usize,
     /// Offsets of Serial Notify PDUs found between Cache Response and End of Data.
     notify_inside: Vec<usize>,
-    /// Other framing complaints.
+    /// Serial Notify PDUs that are not 12 octets long.
+    notify_bad: Vec<String>,
+    /// Complaints about the order of the other PDUs.
     complaints: Vec<String>,
 }
 
 fn parse(out: &[u8]) -> Result<Parsed, String> {
     let pdus = split(out)?;
-    let mut p = Parsed { stripped: Vec::with_capacity(out.len()), units: vec![], notifies: 0, notify_inside: vec![], complaints: vec![] };
+    let mut p = Parsed { stripped: Vec::with_capacity(out.len()), units: vec![], notifies: 0, notify_inside: vec![], notify_bad: vec![], complaints: vec![] };
     let mut open: Option<usize> = None;
     for pdu in pdus {
         if pdu.ty == T_NOTIFY {
             p.notifies += 1;
-            if pdu.end - pdu.start != 12 { p.complaints.push(format!("Serial Notify of {} octets at {}", pdu.end - pdu.start, pdu.start)) }
+            if pdu.end - pdu.start != 12 { p.notify_bad.push(format!("Serial Notify of {} octets at {}", pdu.end - pdu.start, pdu.start)) }
             if open.is_some() { p.notify_inside.push(pdu.start) }
             continue
         }
@@ -372,6 +374,7 @@ struct Obs {
     conn_panicked: bool,
     livelock: bool,
     spin: bool,
+    flood: bool,
 }
 
 thread_local! {
@@ -392,7 +395,7 @@ fn execute(src: &Src, stream_bytes: &[u8], script: &[Ev]) -> Obs {
         Obs {
             out: ctl.output(), marks: tr.marks, consumed: ctl.consumed(), updates: ctl.updates(),
             conn_ended: ctl.dropped(), server_ended: h.is_finished(), conn_panicked: ctl.dropped_in_panic(),
-            livelock: ctl.livelock(), spin: tr.spin || q0.spin,
+            livelock: ctl.livelock(), spin: tr.spin || q0.spin, flood: ctl.flood(),
         }
     }));
     if !obs.conn_ended || !obs.server_ended {
@@ -466,7 +469,7 @@ fn main() {
     let ctx = Ctx::new("C08", "model_checking");
     ctx.assume("single-threaded scheduler: the connection is one task; tokio's broadcast channel, spawn and the current-thread runtime are trusted");
     ctx.assume("the harness' PayloadSource (fixed data set, session 0x1234, serial 7, one retained diff) is the data the responses must carry");
-    ctx.assume("writes are accepted at once (back-pressure only as 1-octet writes at bound 1); notifications fired before the connection has subscribed are out of scope");
+    ctx.assume("writes are accepted at once, except for the 1-octet-write and held-back-response variants at deviation <= 1; notifications fired before the connection has subscribed are out of scope");
 
     let src = Src::new();
     let alpha = alphabet();
@@ -491,8 +494,19 @@ fn main() {
         streams.sort_by_key(|s| s.npdus); // shortest first (stable: alphabet order within)
     }
 
+    // --replay: only the stream and the schedule named by the witness
+    let replay_case: Option<(String, Vec<Ev>)> = ctx.replay.as_ref().map(|(_, w)| {
+        let names = w.split_whitespace().find_map(|t| t.strip_prefix("stream=")).unwrap_or("").to_string();
+        let sched = w.split_once("sched=").and_then(|(_, r)| parse_script(r));
+        match sched {
+            Some(sc) if streams.iter().any(|s| s.names == names) => (names, sc),
+            _ => { eprintln!("machinery: cannot read the witness {w}"); std::process::exit(2) }
+        }
+    });
+    if let Some((names, _)) = &replay_case { streams.retain(|s| s.names == *names) }
+
     // deviation bound per stream size: [1 PDU, 2 PDUs, 3 PDUs]
-    let bound_by_pdus: [usize; 3] = ctx.tier.pick([3, 2, 1], [3, 3, 3]);
+    let bound_by_pdus: [usize; 3] = ctx.tier.pick([3, 3, 2], [4, 4, 3]);
     let max_bound = *bound_by_pdus.iter().max().unwrap();
 
     //--- (1) reference runs against the protocol model ----------------------
@@ -509,11 +523,12 @@ fn main() {
         if expect.iter().any(|e| matches!(e, Expect::Exact(_))) { sp.nontrivial(1) }
         ctx.check("C08.ref.model", wit, || {
             if obs.conn_panicked { return Err("connection task panicked".into()) }
-            if obs.livelock || obs.spin { return Err("livelock/spin guard tripped".into()) }
+            if obs.livelock || obs.spin || obs.flood { return Err("livelock/spin/flood guard tripped".into()) }
             if !obs.conn_ended { return Err("connection still open after the client closed (hang)".into()) }
             let p = parse(&obs.out)?;
             if !p.complaints.is_empty() { return Err(p.complaints.join("; ")) }
             if p.notifies != 0 { return Err("Serial Notify without a notify event".into()) }
+            if !p.notify_bad.is_empty() { return Err(p.notify_bad.join("; ")) }
             for (i, e) in expect.iter().enumerate() {
                 let Some(&(ty, s, e2)) = p.units.get(i) else {
                     return Err(format!("query {} got no response: {} units for {} predicted; transcript {}", i + 1, p.units.len(), expect.len(), hex(&obs.out)))
@@ -549,117 +564,173 @@ fn main() {
 
     //--- (2) schedules -------------------------------------------------------
     let sp = ctx.space("schedules",
-        "per stream: every set of <= 3 cut positions x notify events at every position of the event order (own batch / batched with a chunk / two in one batch) with cuts + notifies <= bound, close after quiescence and (deviation <= 2) close batched with the last event; plus 1-octet-write and 1-octet-read variants at bound <= 1; each compared with the reference run of the same octets; non-trivial = schedules with at least one deviation");
+        "per stream: every set of <= 3 cut positions x notify events at every position of the event order (own batch / batched with a chunk / two in one batch) with cuts + notifies <= bound, close after quiescence and (deviation <= 2) close batched with the last event; plus 1-octet-write and 1-octet-read variants at deviation <= 1 and, with one notify, the response held back after k octets (k in 0,1,7,8,9,27,28,60,129) until after the notify; each compared with the reference run of the same octets; non-trivial = schedules with at least one deviation");
     let transcripts: Mutex<HashSet<u64>> = Mutex::new(HashSet::new());
     let inside_pdu = AtomicU64::new(0);
     let first_last: Mutex<Option<(usize, Vec<Ev>, usize, Vec<Ev>)>> = Mutex::new(None);
     let mut completed_bound = 0usize;
     let per_bound: Mutex<Vec<u64>> = Mutex::new(vec![0; max_bound + 1]);
 
-    let run_one = |si: usize, script: &[Ev], local: &mut BTreeMap<&'static str, u64>, seen: &mut HashSet<u64>, n: &mut (u64, u64, u64)| {
+    // Judges one schedule: outcome class and the oracles it violates (with
+    // details). A pure function of (stream, script), so that the failures
+    // can be reported in a canonical order after the parallel phase.
+    let judge = |si: usize, script: &[Ev]| -> Result<(&'static str, Obs, Vec<(&'static str, String)>), String> {
         let st = &streams[si];
         let rf = &refs[si];
-        let obs = match guard(|| execute(&src, &st.bytes, script)) {
-            Ok(o) => o,
-            Err(p) => { ctx.machinery_error(format!("driver panicked on stream={} sched={}: {p}", st.names, render_script(script))); return }
+        let obs = guard(|| execute(&src, &st.bytes, script))?;
+        let fired = script.iter().filter(|e| matches!(e, Ev::Notify)).count();
+        let mut bad: Vec<(&'static str, String)> = Vec::new();
+        if obs.conn_panicked { bad.push(("C08.sched.terminates", "connection task panicked".into())) }
+        else if obs.livelock { bad.push(("C08.sched.terminates", "read polled > 1000 times after end of stream (livelock)".into())) }
+        else if obs.spin { bad.push(("C08.sched.terminates", "no quiescence (spin)".into())) }
+        else if obs.flood { bad.push(("C08.sched.terminates", "more than 8 MiB written without waiting for input (flood)".into())) }
+        else if !obs.conn_ended { bad.push(("C08.sched.terminates", "connection still open at quiescence after the client closed (hang)".into())) }
+        let mut notifies = 0;
+        match parse(&obs.out) {
+            Err(e) => bad.push(("C08.sched.framing", format!("transcript is not a PDU sequence: {e}; got {}", hex(&obs.out)))),
+            Ok(parsed) => {
+                notifies = parsed.notifies;
+                if parsed.stripped != rf.out {
+                    let d = parsed.stripped.iter().zip(rf.out.iter()).position(|(a, b)| a != b).unwrap_or(parsed.stripped.len().min(rf.out.len()));
+                    let ru = parse(&rf.out).map(|p| p.units.len()).unwrap_or(0);
+                    bad.push(("C08.sched.responses_equal", format!("responses differ from the one-piece run at octet {d}: {} octets / {} units here, {} octets / {} units there; {} of {} client octets consumed; here {} there {}",
+                        parsed.stripped.len(), parsed.units.len(), rf.out.len(), ru, obs.consumed, st.bytes.len(),
+                        rpki_verif::trunc(&hex(&parsed.stripped), 96), rpki_verif::trunc(&hex(&rf.out), 96))));
+                }
+                if !parsed.notify_inside.is_empty() {
+                    bad.push(("C08.sched.notify_between_responses", format!("Serial Notify inside a response at offsets {:?}", parsed.notify_inside)));
+                } else if !parsed.notify_bad.is_empty() {
+                    bad.push(("C08.sched.notify_between_responses", parsed.notify_bad.join("; ")));
+                }
+                if parsed.notifies > fired {
+                    bad.push(("C08.sched.notify_count", format!("{} Serial Notify PDUs for {fired} notify events", parsed.notifies)));
+                }
+            }
+        }
+        let class = if !bad.is_empty() { "violation" }
+            else if notifies > 0 { "equal+serial-notify" }
+            else if fired > 0 { "equal,notify-not-sent" }
+            else { "equal" };
+        Ok((class, obs, bad))
+    };
+    let witness = |si: usize, script: &[Ev]| format!("stream={} hex={} sched={}", streams[si].names, hex(&streams[si].bytes), render_script(script));
+    // failures of the parallel phase: (oracle, stream, script)
+    let failures: Mutex<Vec<(&'static str, usize, Vec<Ev>)>> = Mutex::new(Vec::new());
+
+    let run_one = |si: usize, script: &[Ev], local: &mut BTreeMap<&'static str, u64>, seen: &mut HashSet<u64>,
+                   n: &mut (u64, u64, u64), fails: &mut Vec<(&'static str, usize, Vec<Ev>)>| {
+        let st = &streams[si];
+        let (class, obs, bad) = match judge(si, script) {
+            Ok(x) => x,
+            Err(p) => { ctx.machinery_error(format!("driver panicked on {}: {p}", witness(si, script))); return }
         };
         n.0 += 1;
         n.1 += script.iter().filter(|e| !matches!(e, Ev::Settle)).count() as u64;
-        let fired = script.iter().filter(|e| matches!(e, Ev::Notify)).count();
-        let wit = || format!("stream={} hex={} sched={}", st.names, hex(&st.bytes), render_script(script));
         seen.insert(fnv(&obs.out));
         // notify fired while a PDU is partly delivered (measured, by the known PDU boundaries)
-        {
-            let mut pos = 0usize;
-            let mut hit = false;
-            for e in script { match e { Ev::Deliver(k) => pos += k, Ev::Notify => if !st.bounds.contains(&pos) { hit = true }, _ => {} } }
-            if hit { n.2 += 1 }
-        }
-        let ok_term = ctx.check("C08.sched.terminates", wit, || {
-            if obs.conn_panicked { return Err("connection task panicked".into()) }
-            if obs.livelock { return Err("read polled > 1000 times after end of stream (livelock)".into()) }
-            if obs.spin { return Err("no quiescence (spin)".into()) }
-            if !obs.conn_ended { return Err("connection still open at quiescence after the client closed (hang)".into()) }
-            Ok(())
-        });
-        let parsed = match parse(&obs.out) {
-            Ok(p) => p,
-            Err(e) => {
-                ctx.fail("C08.sched.framing", wit(), format!("transcript is not a PDU sequence: {e}; got {}", hex(&obs.out)));
-                *local.entry("violation").or_insert(0) += 1;
-                return
-            }
-        };
-        let ok_eq = ctx.check("C08.sched.responses_equal", wit, || {
-            if parsed.stripped != rf.out {
-                let d = parsed.stripped.iter().zip(rf.out.iter()).position(|(a, b)| a != b).unwrap_or(parsed.stripped.len().min(rf.out.len()));
-                let ru = parse(&rf.out).map(|p| p.units.len()).unwrap_or(0);
-                return Err(format!("responses differ from the one-piece run at octet {d}: {} octets / {} units here, {} octets / {} units there; consumed {} of {} octets; here {} there {}",
-                    parsed.stripped.len(), parsed.units.len(), rf.out.len(), ru, obs.consumed, st.bytes.len(),
-                    rpki_verif::trunc(&hex(&parsed.stripped), 120), rpki_verif::trunc(&hex(&rf.out), 120)))
-            }
-            Ok(())
-        });
-        let ok_nb = ctx.check("C08.sched.notify_between_responses", wit, || {
-            if !parsed.notify_inside.is_empty() { return Err(format!("Serial Notify inside a response at offsets {:?}", parsed.notify_inside)) }
-            if !parsed.complaints.is_empty() && parsed.stripped == rf.out && refs_clean(rf) { return Err(parsed.complaints.join("; ")) }
-            Ok(())
-        });
-        let ok_nc = ctx.check("C08.sched.notify_count", wit, || {
-            if parsed.notifies > fired { return Err(format!("{} Serial Notify PDUs for {fired} notify events", parsed.notifies)) }
-            Ok(())
-        });
-        let class = if !(ok_term && ok_eq && ok_nb && ok_nc) { "violation" }
-            else if parsed.notifies > 0 { "equal+serial-notify" }
-            else if fired > 0 { "equal,notify-not-sent" }
-            else { "equal" };
+        let mut pos = 0usize;
+        let mut hit = false;
+        for e in script { match e { Ev::Deliver(k) => pos += k, Ev::Notify => if !st.bounds.contains(&pos) { hit = true }, _ => {} } }
+        if hit { n.2 += 1 }
+        for (oracle, _) in bad { fails.push((oracle, si, script.to_vec())) }
         *local.entry(class).or_insert(0) += 1;
     };
 
+    if let Some((_, sc)) = &replay_case {
+        match judge(0, sc) {
+            Ok((class, obs, bad)) => {
+                println!("replay: {} -> {class}; transcript {}", witness(0, sc), hex(&obs.out));
+                for (oracle, detail) in bad { ctx.fail(oracle, witness(0, sc), detail) }
+            }
+            Err(p) => ctx.machinery_error(format!("driver panicked: {p}")),
+        }
+    }
     for bound in 0..=max_bound {
-        // jobs: (stream, cut set) for every split cuts + notifies = bound
-        let mut jobs: Vec<(usize, Vec<usize>, usize)> = Vec::new();
+        if replay_case.is_some() { break }
+        // jobs: (stream, number of cuts, number of notifies, first cut position)
+        // for every split cuts + notifies = bound; a job enumerates the
+        // remaining cut positions itself
+        let mut jobs: Vec<(usize, usize, usize, usize)> = Vec::new();
         for (si, st) in streams.iter().enumerate() {
             if bound > bound_by_pdus[st.npdus - 1] { continue }
             for c in 0..=bound.min(3) {
                 let j = bound - c;
-                if j > 3 { continue }
-                let mut cs = Vec::new();
-                if st.bytes.len() > c { combos(st.bytes.len() - 1, c, 1, &mut vec![], &mut cs); }
-                for cut in cs { jobs.push((si, cut, j)) }
+                if j > 3 || c >= st.bytes.len() { continue }
+                if c == 0 { jobs.push((si, 0, j, 0)) }
+                else { for first in 1..=(st.bytes.len() - c) { jobs.push((si, c, j, first)) } }
             }
         }
+        let cutsets = |job: &(usize, usize, usize, usize)| -> Vec<Vec<usize>> {
+            let mut cs = Vec::new();
+            let n = streams[job.0].bytes.len() - 1;
+            if job.1 == 0 { cs.push(vec![]) } else { combos(n, job.1, job.3 + 1, &mut vec![job.3], &mut cs) }
+            cs
+        };
         let count = AtomicU64::new(0);
-        jobs.par_iter().for_each(|(si, cuts, j)| {
-            let st = &streams[*si];
-            let mut scs = Vec::new();
-            schedules(st.bytes.len(), cuts, *j, false, &mut scs);
-            if bound <= 2 { schedules(st.bytes.len(), cuts, *j, true, &mut scs); }
-            if bound <= 1 {
-                // write-side and read-side granularity variants of the same schedules
-                let base: Vec<Vec<Ev>> = scs.clone();
-                for b in &base {
-                    let mut w = vec![Ev::WriteChunk(1)]; w.extend_from_slice(b); scs.push(w);
-                    let mut w = vec![Ev::ShortWrite(1)]; w.extend_from_slice(b); scs.push(w);
-                    let mut r = vec![Ev::ReadChunk(1)]; r.extend_from_slice(b); scs.push(r);
-                }
-            }
+        jobs.par_iter().for_each(|job| {
+            let (si, j) = (job.0, job.2);
+            let st = &streams[si];
             let mut local = BTreeMap::new();
             let mut seen = HashSet::new();
             let mut n = (0u64, 0u64, 0u64);
-            for sc in &scs { run_one(*si, sc, &mut local, &mut seen, &mut n); }
+            let mut fails = Vec::new();
+            let mut scs: Vec<Vec<Ev>> = Vec::new();
+            for cuts in cutsets(job) {
+                scs.clear();
+                schedules(st.bytes.len(), &cuts, j, false, &mut scs);
+                if bound <= 2 { schedules(st.bytes.len(), &cuts, j, true, &mut scs); }
+                if bound <= 1 {
+                    // write-side and read-side granularity variants of the same schedules
+                    let base: Vec<Vec<Ev>> = scs.clone();
+                    for b in &base {
+                        let mut w = vec![Ev::WriteChunk(1)]; w.extend_from_slice(b); scs.push(w);
+                        let mut w = vec![Ev::ShortWrite(1)]; w.extend_from_slice(b); scs.push(w);
+                        let mut r = vec![Ev::ReadChunk(1)]; r.extend_from_slice(b); scs.push(r);
+                    }
+                }
+                if bound == 1 && cuts.is_empty() && j == 1 {
+                    // back-pressure: the response is stuck after k octets, the
+                    // notify arrives meanwhile, then the client reads on
+                    for k in [0usize, 1, 7, 8, 9, 27, 28, 60, 129] {
+                        scs.push(vec![Ev::WriteBudget(k), Ev::Deliver(st.bytes.len()), Ev::Settle, Ev::Notify, Ev::Settle,
+                                      Ev::Unblock, Ev::Settle, Ev::Close, Ev::Settle]);
+                        scs.push(vec![Ev::WriteBudget(k), Ev::Deliver(st.bytes.len()), Ev::Notify, Ev::Settle,
+                                      Ev::Unblock, Ev::Settle, Ev::Close, Ev::Settle]);
+                    }
+                }
+                for sc in &scs { run_one(si, sc, &mut local, &mut seen, &mut n, &mut fails); }
+            }
             sp.merge_outcomes(&local);
             sp.evals(n.0); sp.states(n.0); sp.traces(n.0); sp.transitions(n.1);
             if bound > 0 { sp.nontrivial(n.0) }
             inside_pdu.fetch_add(n.2, Ordering::Relaxed);
             count.fetch_add(n.0, Ordering::Relaxed);
             transcripts.lock().unwrap().extend(seen);
+            if !fails.is_empty() { failures.lock().unwrap().append(&mut fails) }
         });
+        // report this bound's failures in canonical order (so that the ones
+        // that get printed do not depend on thread timing); details are
+        // recomputed for the first few per oracle only
+        {
+            let mut fs = std::mem::take(&mut *failures.lock().unwrap());
+            fs.sort();
+            let mut shown: BTreeMap<&'static str, u32> = BTreeMap::new();
+            for (oracle, si, script) in fs {
+                let k = shown.entry(oracle).or_insert(0);
+                let detail = if *k < 8 {
+                    *k += 1;
+                    judge(si, &script).ok().and_then(|(_, _, bad)| bad.into_iter().find(|(o, _)| *o == oracle).map(|(_, d)| d)).unwrap_or_default()
+                } else { String::new() };
+                ctx.fail(oracle, witness(si, &script), detail);
+            }
+        }
         // remember the first and the last schedule of the whole enumeration
         if let (Some(f), Some(l)) = (jobs.first(), jobs.last()) {
-            let mk = |job: &(usize, Vec<usize>, usize), last: bool| {
+            let mk = |job: &(usize, usize, usize, usize), last: bool| {
+                let mut cs = cutsets(job);
+                let cuts = if last { cs.pop().unwrap() } else { cs.swap_remove(0) };
                 let mut scs = Vec::new();
-                schedules(streams[job.0].bytes.len(), &job.1, job.2, false, &mut scs);
+                schedules(streams[job.0].bytes.len(), &cuts, job.2, false, &mut scs);
                 (job.0, if last { scs.pop().unwrap() } else { scs.swap_remove(0) })
             };
             let mut fl = first_last.lock().unwrap();
@@ -709,6 +780,3 @@ fn main() {
 
     ctx.finish();
 }
-
-/// The reference transcript itself is a clean PDU sequence.
-fn refs_clean(rf: &Obs) -> bool { parse(&rf.out).map(|p| p.complaints.is_empty()).unwrap_or(false) }
